@@ -13,6 +13,11 @@ done={
  'C06':('fault_enumeration',EX,"every 1-bit, 2-bit and <=16-bit burst corruption (within stated windows for long frames) of a request/response library, both roles; independent bit-wise CRC-16 in the reference framer"),
  'C07':('exploration',EX,"exhaustive 1-deviation (thorough: 2-deviation) neighbourhood of valid traffic plus all short byte strings, 4 role x framing combinations, decode levels, with panics caught per poll, a poll budget, a wall-clock watchdog for spins inside one poll, and a shutdown check"),
  'C08':('model_checking',MC,"all request sequences up to depth D x policy set (all 256 per-function masks in thorough) x roles; interleaved authorization/handler log, replies and state compared with the reference server"),
+ 'C10':('model_checking',MC,"all event sequences up to depth D with <= K deviations over a 23-symbol alphabet on the production TcpChannelTask (2 handles, 3 submit styles, queue capacity 2/16, N none/1/2), each extended by an epilogue to a finite horizon; completions compared with the reference client model after every event"),
+ 'C11':('model_checking',MC,"all sequences up to depth D over submit / matching / stale / future / duplicate / idle frames / partial replies / reconnect, wire log and results compared with the reference client model; plus a 65,600-round path across the transaction-id wrap"),
+ 'C12':('model_checking',MC,"all sequences up to depth D over submits with timeouts 1/7/1000 ms, reply variants and clock advances to, before and past the deadline, for N in none/1/2/3, under tokio's paused clock; completion instants and connection drops compared with the reference client model"),
+ 'C13':('model_checking',MC,"all command/environment sequences up to depth D on the production TcpChannelTask (connector seam); listener path, fast NoConnection failures, connect attempts, transport closure and task termination compared with the reference automaton"),
+ 'C14':('model_checking',MC,"strategy object: all lattice (min,max) pairs x all call sequences up to length L; task level: all connect-outcome sequences up to depth D under the paused clock, announced delay = reference delay = delay actually waited"),
  'C17':('model_checking',MC,"all 256 destinations x 27 request kinds x 4 unit maps x 2 framings on fresh sessions plus all sequences up to depth D over a 12-symbol broadcast/unicast alphabet"),
 }
 commits=subprocess.run(['git','-C','/repo','log','--format=%h %s'],capture_output=True,text=True).stdout.splitlines()
